@@ -17,7 +17,7 @@ fn namespaces(snap: &BTreeMap<String, String>) -> BTreeSet<String> {
 
 fn one(rep: &mut Reporter, seed: u64, idx: u64) {
     let mut rng = Rng::new(seed);
-    let tmp = tempfile::tempdir().unwrap();
+    let tmp = vcommon::scratch_dir();
     let ndel = 1 + rng.usize(4);
     let local_is_delegate = rng.bool();
     let delegates: Vec<Dev> = (0..ndel as u8).map(|i| fx::device(7, i)).collect();
